@@ -237,11 +237,13 @@ Theorem seg_on_sent_counts : forall g now,
 Proof. intros g now. unfold seg_on_sent, seg_retransmit_count. cbn [sg_sent]. destruct (sg_sent g); reflexivity. Qed.
 
 (* ================================================================== (g) EOF only after everything *)
-(* a FIN is stored for the reader only when the table lets it through: in the data states only the
-   in-sequence FIN (every earlier sequence number consumed); otherwise the message changes nothing *)
+(* a FIN is stored for the reader only when the table lets it through: in the data states - and, since
+   the repair of D19, while our SYN-ACK is unanswered - only the in-sequence FIN (every earlier
+   sequence number consumed); otherwise the message changes nothing *)
 Theorem fin_stored_only_in_sequence : forall (s : vsock) m s' r,
   ch_type (m_hdr m) = ST_FIN ->
-  (v_state s = Established \/ (exists f, v_state s = FinWait1 f) \/ v_state s = FinWait2) ->
+  ((exists k, v_state s = SynAckSent k) \/
+   v_state s = Established \/ (exists f, v_state s = FinWait1 f) \/ v_state s = FinWait2) ->
   process_incoming_message cci s m = SOk s' r -> v_rx s' <> v_rx s ->
   ch_seq (m_hdr m) = wadd16 (v_last_consumed s) 1.
 Proof.
